@@ -93,15 +93,36 @@ func main() {
 		fail("need --cases, --replay or --probe")
 	}
 	cases := make([]*schemacase.Case, 0, len(lines))
+	var headerErrors []string
+	var cur *schemacase.Header
 	for i, ln := range lines {
-		c := &schemacase.Case{}
-		if err := json.Unmarshal(ln, c); err != nil {
+		var k struct {
+			Kind string `json:"kind"`
+		}
+		if err := json.Unmarshal(ln, &k); err != nil {
 			fail("line %d: %v", i+1, err)
 		}
-		if c.Kind != "schemacase" {
-			fail("line %d: unknown kind %q", i+1, c.Kind)
+		switch k.Kind {
+		case "schemaheader":
+			h, errs, err := schemacase.ParseHeader(ln)
+			if err != nil {
+				fail("line %d: header: %v", i+1, err)
+			}
+			headerErrors = append(headerErrors, errs...)
+			cur = h
+		case "schemacase":
+			c := &schemacase.Case{}
+			if err := json.Unmarshal(ln, c); err != nil {
+				fail("line %d: %v", i+1, err)
+			}
+			c.Attach(cur)
+			cases = append(cases, c)
+		default:
+			fail("line %d: unknown kind %q", i+1, k.Kind)
 		}
-		cases = append(cases, c)
+	}
+	if len(headerErrors) > 0 {
+		fail("the spec's finite abstraction is not faithful to the concrete strings: %v", headerErrors)
 	}
 
 	out := bufio.NewWriterSize(os.Stdout, 1<<20)
